@@ -436,7 +436,8 @@ mm_submit_burst(struct mmgr *mm, uint32_t n, IMB_JOB **jobs, int nocheck, int ex
                         ring_viol(mm, "rejected-burst-returned", "rejected burst returned jobs");
                 if (expect_err != -2 && mm->count != before)
                         ring_viol(mm, "rejected-burst", "model changed");
-                qsize_check(mm, "rejected submit_burst");
+                if (expect_err != -2)
+                        qsize_check(mm, "rejected submit_burst");
                 return r;
         }
         if (r > n) {
